@@ -71,20 +71,48 @@ fn rss_mb() -> u64 {
 
 fn observe(text: &str) -> (String, Outcome) {
 
+    let (shown, outcome, _) = observe_state(text, &[]);
+    (shown, outcome)
+}
+
+/// also reports, after a run-time error, the canonical value of (0, *log, names...) as the
+/// host sees it in the interpreter the program ran in
+fn observe_state(text: &str, names: &[String]) -> (String, Outcome, Option<String>) {
     let rss_before = rss_mb();
-    let run = exec::run_program(text, false);
+    let (outcome, interp) = exec::run_program_keep(text);
     if std::env::var("VERIF_TRACE").is_ok() {
         let after = rss_mb();
         if after > rss_before + 300 {
             eprintln!("RSS {rss_before} -> {after} MB: {text}");
         }
     }
-    let shown = match &run.outcome {
+    let shown = match &outcome {
         Outcome::Value(v) => format!("value {}", canon::canon(v).show()),
         Outcome::ExecError(k) => format!("run-time error {k}"),
         o => o.short(),
     };
-    (shown, run.outcome)
+    let state = if matches!(outcome, Outcome::ExecError(_)) {
+        let mut items = vec![simplesl::variable::Variable::Int(0)];
+        let log = match interp.get_variable("log") {
+            Some(simplesl::variable::Variable::Mut(m)) => m.variable.read().ok().map(|g| g.clone()),
+            _ => None,
+        };
+        items.push(log.unwrap_or(simplesl::variable::Variable::Void));
+        let mut missing = None;
+        for n in names {
+            match interp.get_variable(n) {
+                Some(v) => items.push(v.clone()),
+                None => missing = Some(n.clone()),
+            }
+        }
+        Some(match missing {
+            Some(n) => format!("<the name {n} is not bound>"),
+            None => format!("value {}", canon::canon(&simplesl::variable::Variable::Tuple(items.into())).show()),
+        })
+    } else {
+        None
+    };
+    (shown, outcome, state)
 }
 
 impl RefProp {
@@ -92,10 +120,24 @@ impl RefProp {
         let expected = case["expected"].as_str().unwrap_or("");
         let permitted: Vec<&str> = case["permitted"].as_array().map(|a| a.iter().filter_map(|k| k.as_str()).collect()).unwrap_or_default();
         stats.eval();
-        let (shown, outcome) = observe(text);
+        let names: Vec<String> = case["error_names"].as_array().map(|a| a.iter().filter_map(|n| n.as_str().map(str::to_string)).collect()).unwrap_or_default();
+        let (shown, outcome, state) = observe_state(text, &names);
         match &outcome {
             Outcome::Value(_) | Outcome::ExecError(_) => {
                 if shown == expected {
+                    // after a run-time error the host still sees the names bound before the
+                    // failing statement; cells must hold what the reference's cells hold
+                    if let (Some(want), Some(got)) = (case["error_state"].as_str(), state.as_deref())
+                        && want != got
+                    {
+                        return fail(
+                            format!("{}:state-after-error", self.id),
+                            format!("`{text}`\n  fails with {shown} as expected, but afterwards (0, *log, {}) is\n  reference: {want}\n  real:      {got}", names.join(", ")),
+                        );
+                    }
+                    if case["error_state"].is_string() {
+                        stats.label("state after a run-time error compared");
+                    }
                     Verdict::Pass
                 } else {
                     let what = if expected.starts_with("run-time error") || shown.starts_with("run-time error") { "error" } else { "value" };
@@ -157,6 +199,10 @@ impl Property for RefProp {
             "labels": built.program.labels,
             "literals": literals,
         });
+        if let Some((names, state)) = &built.error_state {
+            case["error_names"] = json!(names);
+            case["error_state"] = json!(format!("value {}", state.show()));
+        }
         if self.twin {
             case["plain"] = json!(case::print(&built.program, Hide::None));
             case["hidden"] = json!(case::print(&built.program, Hide::All));
@@ -255,6 +301,9 @@ impl Property for RefProp {
 
 pub fn run(session: &Session, prop: &'static RefProp, rule: &str) -> i32 {
     crate::engine::run_regressions(session, prop);
+    if prop.id == "C13" && !session.stopped() {
+        crate::props::soundness::run_cells(session);
+    }
     if !session.stopped() {
         session.run_tapes(prop, session.tier.of(40_000, 2_000_000), 600, 0);
     }
